@@ -312,7 +312,7 @@ def run_derived(spec, res):
     from lxml import etree
     rng = env.rng_for(PROPERTY, spec['tier'], spec['seed'], 'derived', spec['dshard'])
     for i in range(spec['n']):
-        kind = rng.choice(('int', 'decimal', 'string', 'token', 'date', 'list', 'union', 'hex'))
+        kind = rng.choice(('int', 'decimal', 'string', 'token', 'date', 'list', 'union', 'hex', 'tz'))
         facets1, facets2 = gen_facets(kind, rng), gen_facets(kind, rng)
         xsd, checker, texts = build_derived(kind, facets1, facets2, rng)
         if xsd is None:
@@ -393,6 +393,8 @@ def gen_facets(kind, rng):
             f['minInclusive'] = '2020-01-10'
         if rng.random() < 0.6:
             f['maxExclusive'] = '2020-03-01'
+    elif kind == 'tz':
+        f['explicitTimezone'] = rng.choice(('optional', 'required', 'prohibited'))
     elif kind == 'list':
         r = rng.random()
         if r < 0.4:
@@ -545,6 +547,28 @@ def build_derived(kind, f1, f2, rng):
                 return False
             return string_facets_ok(f1, '', length=len(n) // 2) and string_facets_ok(f2, '', length=len(n) // 2)
         texts = ['', '0F', '0F0F', '0f0f0f', '0F0F0F0F', '0F0F0F0F0F', '0F0F0F0F0F0F', '0', 'zz']
+        return xsd, chk, texts
+    if kind == 'tz':
+        # XSD 1.1 explicitTimezone on date / dateTime / time (an XSD 1.0 processor refuses the facet)
+        base_t = rng.choice(('date', 'dateTime', 'time'))
+        xsd = (f'<xs:schema xmlns:xs="{XS}"><xs:simpleType name="A"><xs:restriction base="xs:{base_t}">{facet_xml(f1)}</xs:restriction></xs:simpleType>'
+               f'<xs:simpleType name="B"><xs:restriction base="A">{facet_xml(f2)}</xs:restriction></xs:simpleType>'
+               f'<xs:element name="e" type="B"/></xs:schema>')
+
+        def chk(t, version):
+            n = DT.normalize(base_t, t)
+            if not DT.lexical_ok(base_t, n, version):
+                return False
+            has_tz = bool(re.search(r'(Z|[+-]\d\d:\d\d)$', n))
+            for f in (f1, f2):
+                if f.get('explicitTimezone') == 'required' and not has_tz:
+                    return False
+                if f.get('explicitTimezone') == 'prohibited' and has_tz:
+                    return False
+            return True
+        texts = {'date': ['2020-01-09', '2020-01-09Z', '2020-01-09+02:00', '2020-01-09-14:00', ' 2020-02-29Z ', '2020-02-30Z', 'x'],
+                 'dateTime': ['2020-01-09T10:00:00', '2020-01-09T10:00:00Z', '2020-01-09T10:00:00.5-05:00', '2020-01-09T24:00:00', '2020-01-09T10:00Z', 'x'],
+                 'time': ['10:00:00', '10:00:00Z', '23:59:59.9+14:00', '24:00:00Z', '10:00', 'x']}[base_t]
         return xsd, chk, texts
     if kind == 'date':
         def chk(t, version):
